@@ -267,6 +267,13 @@ class Guard:
         except AnalysisError as e:
             self.pending = self.pending or e
             return None
+        except (KeyboardInterrupt, SystemExit):
+            raise
+        except Exception as e:  # noqa - a rule that crashes gives no verdict, and does not keep the other rules from reporting
+            import traceback
+            tb = traceback.extract_tb(e.__traceback__)[-1]
+            self.pending = self.pending or AnalysisError('internal error in %s: %s: %s (%s:%d)' % (getattr(fn, '__name__', '?'), type(e).__name__, str(e)[:120], tb.filename.split('/')[-1], tb.lineno))
+            return None
 
     def done(self):
         if self.pending is not None:
